@@ -1711,6 +1711,72 @@ fn mode_compose(r: &mut Runner) {
         let _ = await_no_library_thread();
         set_current(None);
     }
+    // two queuing sinks with handlers in one process: while the handler of the first is busy (it waits for the harness),
+    // the second sink's failures are reported to ITS handler, each once - handlers of different sinks owe each other nothing
+    for _once in 0..1 {
+        if r.prop != "C16" {
+            break;
+        }
+        let gate = Arc::new((Mutex::new(false), std::sync::Condvar::new()));
+        let in_first = Arc::new(std::sync::atomic::AtomicBool::new(false));
+        let first_calls = Arc::new(std::sync::atomic::AtomicU64::new(0));
+        let second_calls = Arc::new(std::sync::atomic::AtomicU64::new(0));
+        let (g2, if2, fc2) = (std::panic::AssertUnwindSafe(gate.clone()), in_first.clone(), first_calls.clone());
+        let q1 = QueuingMetricSink::builder()
+            .with_error_handler(move |_e| {
+                fc2.fetch_add(1, std::sync::atomic::Ordering::SeqCst);
+                if2.store(true, std::sync::atomic::Ordering::SeqCst);
+                let (m, cv) = &**g2;
+                let mut g = m.lock().unwrap_or_else(|e| e.into_inner());
+                while !*g {
+                    g = cv.wait(g).unwrap_or_else(|e| e.into_inner());
+                }
+            })
+            .build(AlwaysFails);
+        let sc2 = second_calls.clone();
+        let q2 = QueuingMetricSink::builder()
+            .with_error_handler(move |_e| {
+                sc2.fetch_add(1, std::sync::atomic::Ordering::SeqCst);
+            })
+            .build(AlwaysFails);
+        let _ = q1.emit("first.queue:1|c");
+        let t0 = std::time::Instant::now();
+        while !in_first.load(std::sync::atomic::Ordering::SeqCst) && t0.elapsed().as_secs() < 30 {
+            std::thread::yield_now();
+        }
+        let n = 25u64;
+        for k in 0..n {
+            let _ = q2.emit(&format!("second.queue.n{}:1|c", k));
+        }
+        // the second queue comes to rest on its own (its thread has nothing to wait for)
+        let stuck = procmon::watch(|| q2.drained() >= n && second_calls.load(std::sync::atomic::Ordering::SeqCst) >= n, 40, std::time::Duration::from_millis(400), std::time::Duration::from_secs(60));
+        let got = second_calls.load(std::sync::atomic::Ordering::SeqCst);
+        {
+            let (m, cv) = &*gate;
+            *m.lock().unwrap() = true;
+            cv.notify_all();
+        }
+        {
+            let mut rep = r.rep();
+            rep.eval();
+            rep.obs("failures_of_one_queue_while_another_queues_handler_was_busy", n);
+            rep.distinct("compose|two-queues-busy-handler");
+            if !in_first.load(std::sync::atomic::Ordering::SeqCst) {
+                rep.inconclusive("two-queues: the first queue's handler was not entered within 30 s");
+            } else if got > n {
+                rep.violation(Violation { property: "C16".into(), rule: "R8".into(), class: "handler-called-twice".into(), detail: format!("[compose two queuing sinks, the first one's handler busy] {} failures of the second sink, its handler was called {} times", n, got), replay_args: r.args.to_vec_with(&[]), trace: Json::Null });
+            } else if got < n {
+                // (the only other library thread is the first queue's, which waits inside its handler on the harness's gate)
+                match stuck {
+                    Some(procmon::Quiescence::Active) | Some(procmon::Quiescence::Spinning { .. }) => rep.inconclusive("two-queues: the second queue's thread was still busy after 60 s"),
+                    _ => rep.violation(Violation { property: "C16".into(), rule: "R8".into(), class: "handler-never-called".into(), detail: format!("[compose two queuing sinks, the first one's handler busy] the second sink's wrapped sink failed {} metrics (drained() = {}), its handler was called {} times", n, q2.drained(), got), replay_args: r.args.to_vec_with(&[]), trace: Json::Null }),
+                }
+            }
+        }
+        drop(q1);
+        drop(q2);
+        let _ = await_no_library_thread();
+    }
     // the crate's OWN sinks behind the queue (a queue over NopMetricSink is the documented way to measure the client's
     // overhead; spy sinks are what tests use) and the rendezvous capacity 0, with nothing gated: at rest `submitted` is
     // the number of emits that returned Ok, `drained` has caught up with it and nothing is queued
